@@ -72,6 +72,12 @@ INTEGS = ["exact", "trapz"]
 
 
 # ----------------------------------------------------------------------------- generators
+import zlib  # noqa: E402
+
+# documented defaults of crps_cdf (docstring / signature at the pinned commit)
+DOCUMENTED_DEFAULTS = {"additional_thresholds": None, "propagate_nans": True, "fcst_fill_method": "linear",
+                       "threshold_weight_fill_method": "forward", "integration_method": "exact", "include_components": False}
+
 def gen_weight(rng, c, kind=None, wthr_fn=None):
     """wthr_fn(n): the weight's own thresholds (default: the order-1 pool of cc.gen_thresholds)"""
     kind = kind or rng.choice(["none", "none", "step", "step", "general", "general", "nan", "gap"])
@@ -367,10 +373,19 @@ def run_crps(c, reduce_all=False):
                 kw["reduce_dims"] = None
             else:
                 kw["preserve_dims"] = [cc.fresh(d, "") for d in sorted(c["extra"])]
-            ds = crps_cdf(cc.mk(c, tdim), cc.mk_obs(c), threshold_dim=tdim, threshold_weight=mk_weight(c, tdim),
-                          additional_thresholds=c["additional"], propagate_nans=c["propagate"], fcst_fill_method=c["fillF"],
-                          threshold_weight_fill_method=c["fillW"], integration_method=c["integ"],
-                          include_components=c["components"], **kw)
+            opts = dict(additional_thresholds=c["additional"], propagate_nans=c["propagate"], fcst_fill_method=c["fillF"],
+                        threshold_weight_fill_method=c["fillW"], integration_method=c["integ"], include_components=c["components"])
+            # a keyword whose value is the DOCUMENTED default is left out in half of the cases (deterministically per case):
+            # the defaults are part of the interface
+            if zlib.crc32(repr(sorted((k, str(v)) for k, v in c.items())).encode()) % 2 == 0:
+                for k, dv in DOCUMENTED_DEFAULTS.items():
+                    if k in opts and opts[k] == dv and type(opts[k]) is type(dv):
+                        del opts[k]
+            fc_in = cc.mk(c, tdim)
+            if zlib.crc32(repr(sorted((k, str(v)) for k, v in c.items())).encode()) % 40 == 1:
+                fc_in = fc_in.chunk()        # a dask-backed forecast (one chunk per dimension): same values, lazy container
+            ds = crps_cdf(fc_in, cc.mk_obs(c), threshold_dim=tdim, threshold_weight=mk_weight(c, tdim), **opts, **kw)
+            ds = ds.compute()
             names = {"total": "total", "under": "underforecast_penalty", "over": "overforecast_penalty"}
             if not c["components"]:
                 if set(ds.data_vars) != {"total"}:
